@@ -3,19 +3,20 @@
 // in_valid_region then sees a bogus "wrap-around" region that contains nearly everything and committed() returns true for an item that was inserted
 // behind head.  (The paper's listing reads head first: then head_read <= head_now <= tail_now and the test is sound.)
 // Schedule (k = 2, 4 segments; one thread plays all roles through the two hook points):
-//   pusher A: reads tail = 0, finds slot 0 empty, re-checks tail                                [hook 1: try_push:before_slot_cas]
+//   pusher A: reads tail = 0, finds slot 0 empty, re-checks tail                                [hook 1: try_push.before_slot_cas]
 //     others: push 2, pop 2, pop (empty)            -> head = 2, tail = 2  (segment 0 is now behind head)
-//   A: slot CAS succeeds (slot 0 untouched), committed(): slot unchanged, reads tail = 2      [hook 2: committed:between_loads]
+//   A: slot CAS succeeds (slot 0 untouched), committed(): slot unchanged, reads tail = 2      [hook 2: committed.between_loads]
 //     others: push 3, pop 3, pop (empty)            -> head = 4, tail = 4
 //   A: reads head = 4: in_valid_region(tail_old = 0, tail = 2, head = 4) = true -> try_push returns true, X is outside [4, 4]
-// Needs the guarded replay hooks (units/kbq/hooks.diff).  build: g++ -std=c++17 -O1 -fno-access-control -DMPOETER_XENIUM_VERIF -I <hooked tree> ...
+// Uses the guarded replay hooks of the repository plus ONE more schedule point, XENIUM_VERIF_POINT("kirsch_bounded_kfifo_queue.committed.between_loads")
+// between the two loads of committed() (units/kbq/hook_committed.diff); without it the program reports "hook point never reached" and exits 2.  build: g++ -std=c++17 -O1 -fno-access-control -DMPOETER_XENIUM_VERIF -I <hooked tree> ...
 // exit 0 = property holds on this schedule, 1 = violated, 2 = hooks missing
 #define MPOETER_XENIUM_VERIF 1
 #include <xenium/kirsch_bounded_kfifo_queue.hpp>
 #include <cstdio>
 #include <cstring>
 #ifndef XENIUM_VERIF_POINT
-int main() { printf("this tree has no XENIUM_VERIF_POINT hooks (apply units/kbq/hooks.diff)\n"); return 2; }
+int main() { printf("this tree has no XENIUM_VERIF_POINT hooks (needs the MPOETER_XENIUM_VERIF hooks of the repository)\n"); return 2; }
 #else
 using Q = xenium::kirsch_bounded_kfifo_queue<int*>;
 static int v[64]; static Q* q; static std::uint64_t R; static int stage = 0;
@@ -28,16 +29,17 @@ static void others(int id) {
   stage = st;
 }
 static void hook(const char* id) {
-  if (stage == 1 && !strcmp(id, "kirsch_bounded_kfifo_queue::try_push:before_slot_cas")) { stage = 2; others(2); R = 0; }
-  else if (stage == 2 && !strcmp(id, "kirsch_bounded_kfifo_queue::committed:between_loads")) { stage = 3; others(3); R = 0; }
+  if (stage == 1 && !strcmp(id, "kirsch_bounded_kfifo_queue.try_push.before_slot_cas")) { stage = 2; others(2); R = 0; }
+  else if (stage == 2 && !strcmp(id, "kirsch_bounded_kfifo_queue.committed.between_loads")) { stage = 3; others(3); R = 0; }
 }
 int main() {
   setvbuf(stdout, nullptr, _IONBF, 0);
   for (int i = 0; i < 64; i++) v[i] = i;
   Q queue(2, 4); q = &queue; int* r; int bad = 0;
-  xenium::verif::random_override = rnd; xenium::verif::point_hook = hook;
+  xenium::utils::verif_random_hook = rnd; ::xenium_verif_point_hook = hook;
   stage = 1; R = 0;
   bool ok = q->try_push(&v[10]);
+  if (stage != 3) { printf("hook point kirsch_bounded_kfifo_queue.committed.between_loads never reached (stage %d): apply units/kbq/hook_committed.diff\n", stage); return 2; }
   stage = 0;
   unsigned long h = q->_head.load().get(), t = q->_tail.load().get();
   int xslot = -1; for (int i = 0; i < 8; i++) if (q->_queue[i].value.load().get() == &v[10]) xslot = i;
